@@ -24,6 +24,8 @@ struct St {
     pc: Vec<usize>,
     label: Vec<&'static str>,
     panicked: Vec<Option<String>>,
+    /// /proc stat file of each program thread (filled in by the thread itself)
+    stat: Vec<String>,
 }
 
 pub struct Shared {
@@ -84,16 +86,67 @@ pub static DEADLOCK_PROPERTY: Mutex<String> = Mutex::new(String::new());
 /// The controller itself takes the filesystem's lock for that; if a parked thread holds the lock
 /// across a yield point (e.g. a nested acquisition) the controller would block for ever, so a
 /// monitor thread watches this table.
-static OBSERVING: Mutex<Option<HashMap<std::thread::ThreadId, (std::time::Instant, String)>>> =
-    Mutex::new(None);
+static OBSERVING: Mutex<Option<HashMap<std::thread::ThreadId, Watched>>> = Mutex::new(None);
+
+struct Watched {
+    since: std::time::Instant,
+    what: String,
+    /// /proc/<pid>/task/<tid>/stat of the watched thread
+    stat: String,
+    last_ticks: Option<u64>,
+    /// consecutive samples in which the thread slept and used no CPU at all
+    blocked_samples: u32,
+}
+
+/// `/proc/<pid>/task/<tid>/stat` of the calling thread.
+fn own_stat_path() -> String {
+    match std::fs::read_link("/proc/thread-self") {
+        Ok(p) => format!("/proc/{}/stat", p.display()),
+        Err(_) => String::new(),
+    }
+}
+
+/// (scheduler state, CPU ticks used so far) of a thread.  A thread that waits for a lock sleeps
+/// ('S') and uses no CPU; a thread that is merely slow because the machine is busy is runnable
+/// ('R') or makes progress between two samples.
+fn thread_stat(path: &str) -> Option<(char, u64)> {
+    let text = std::fs::read_to_string(path).ok()?;
+    let rest = &text[text.rfind(')')? + 1..];
+    let f: Vec<&str> = rest.split_whitespace().collect();
+    let state = f.first()?.chars().next()?;
+    let ticks = f.get(11)?.parse::<u64>().ok()? + f.get(12)?.parse::<u64>().ok()?;
+    Some((state, ticks))
+}
+
+/// One more sample of a watched thread: true once it has slept without using any CPU for
+/// `need` consecutive samples (it is blocked, not slow).  Without /proc every sample counts.
+fn sample_blocked(stat: &str, last_ticks: &mut Option<u64>, blocked_samples: &mut u32, need: u32) -> bool {
+    match thread_stat(stat) {
+        Some((state, ticks)) => {
+            if state == 'S' && *last_ticks == Some(ticks) {
+                *blocked_samples += 1;
+            } else {
+                *blocked_samples = 0;
+            }
+            *last_ticks = Some(ticks);
+        }
+        None => *blocked_samples += 1,
+    }
+    *blocked_samples >= need
+}
 
 fn observing<T>(what: impl FnOnce() -> String, f: impl FnOnce() -> T) -> T {
     let id = std::thread::current().id();
-    OBSERVING
-        .lock()
-        .unwrap()
-        .get_or_insert_with(HashMap::new)
-        .insert(id, (std::time::Instant::now(), what()));
+    OBSERVING.lock().unwrap().get_or_insert_with(HashMap::new).insert(
+        id,
+        Watched {
+            since: std::time::Instant::now(),
+            what: what(),
+            stat: own_stat_path(),
+            last_ticks: None,
+            blocked_samples: 0,
+        },
+    );
     let r = f();
     OBSERVING.lock().unwrap().as_mut().unwrap().remove(&id);
     r
@@ -120,10 +173,22 @@ fn start_monitor() {
     ONCE.call_once(|| {
         std::thread::spawn(|| loop {
             std::thread::sleep(Duration::from_secs(1));
-            let stuck = OBSERVING.lock().unwrap().as_ref().and_then(|m| m.values().find(|(t, _)| t.elapsed() >= Duration::from_secs(10)).map(|(_, w)| w.clone()));
+            // a controller that has been at it for 10 s AND has slept without using any CPU for the
+            // last 8 samples is blocked; one that is merely slow on a busy machine is left alone
+            let mut stuck = None;
+            if let Some(m) = OBSERVING.lock().unwrap().as_mut() {
+                for w in m.values_mut() {
+                    if w.since.elapsed() >= Duration::from_secs(2) {
+                        let blocked = sample_blocked(&w.stat, &mut w.last_ticks, &mut w.blocked_samples, 8);
+                        if blocked && w.since.elapsed() >= Duration::from_secs(10) {
+                            stuck = Some(w.what.clone());
+                        }
+                    }
+                }
+            }
             if let Some(w) = stuck {
                 report_deadlock(
-                    "the scheduler could not read the shared filesystem state within 10 s while every thread was parked at a yield point: a thread holds the filesystem lock across a yield point (e.g. it acquires the lock again while holding it), so any writer that arrives in between deadlocks with it",
+                    "the scheduler could not read the shared filesystem state (blocked for 10 s without using any CPU) while every thread was parked at a yield point: a thread holds the filesystem lock across a yield point (e.g. it acquires the lock again while holding it), so any writer that arrives in between deadlocks with it",
                     &w,
                     vec![],
                 );
@@ -178,6 +243,7 @@ pub fn run_schedule<P: Program>(prog: &P, prefix: &[usize]) -> Execution<P> {
             pc: vec![0; n],
             label: vec!["start"; n],
             panicked: vec![None; n],
+            stat: vec![String::new(); n],
         }),
         cv: Condvar::new(),
     });
@@ -192,6 +258,7 @@ pub fn run_schedule<P: Program>(prog: &P, prefix: &[usize]) -> Execution<P> {
             let rec = &recs[i];
             scope.spawn(move || {
                 CUR.with(|c| *c.borrow_mut() = Some((sh.clone(), i)));
+                sh.m.lock().unwrap().stat[i] = own_stat_path();
                 sh.wait_first_turn(i);
                 let r = catch_unwind(AssertUnwindSafe(|| prog.run_thread(sys_ref, i, rec)));
                 CUR.with(|c| *c.borrow_mut() = None);
@@ -213,6 +280,7 @@ pub fn run_schedule<P: Program>(prog: &P, prefix: &[usize]) -> Execution<P> {
             let (enabled, pcs, labels) = {
                 let mut st = shared.m.lock().unwrap();
                 let mut waited = Duration::ZERO;
+                let (mut last_ticks, mut blocked_samples) = (None, 0u32);
                 while st.turn.is_some() {
                     let (g, to) = shared
                         .cv
@@ -221,7 +289,16 @@ pub fn run_schedule<P: Program>(prog: &P, prefix: &[usize]) -> Execution<P> {
                     st = g;
                     if to.timed_out() {
                         waited += Duration::from_millis(500);
-                        if waited >= Duration::from_secs(10) {
+                        // blocked = the running thread has slept without using any CPU for the last 8 s
+                        // (a thread that is slow because the machine is busy is runnable or progresses)
+                        let blocked = match st.turn {
+                            Some(t) if waited >= Duration::from_secs(2) => {
+                                let path = st.stat[t].clone();
+                                sample_blocked(&path, &mut last_ticks, &mut blocked_samples, 16)
+                            }
+                            _ => false,
+                        };
+                        if waited >= Duration::from_secs(10) && blocked {
                             deadlock = true;
                             break;
                         }
@@ -235,7 +312,7 @@ pub fn run_schedule<P: Program>(prog: &P, prefix: &[usize]) -> Execution<P> {
             if deadlock {
                 // a blocked OS thread cannot be joined or killed: report and leave the process
                 report_deadlock(
-                    "a thread neither finished nor reached a yield point within 10 s (deadlock, or a lock held across a yield point)",
+                    "a thread neither finished nor reached a yield point and has been blocked (asleep, no CPU used) for 10 s: deadlock, or a lock held across a yield point",
                     &prog.describe(),
                     trace.iter().map(|s| s.chosen).collect::<Vec<_>>(),
                 );
